@@ -13,6 +13,7 @@ import (
 	"verif/harness/core"
 	"verif/harness/gen"
 	"verif/harness/obs"
+	"verif/harness/run"
 )
 
 func init() {
@@ -307,6 +308,17 @@ func runC04(c *core.Ctx) {
 		}
 		if k != len(rows) {
 			c.Violation("csv database|row", fmt.Sprintf("%d extra rows", len(rows)-k), doc)
+		}
+		// the same file through a pipe (-d /dev/stdin): a non-seekable input must read the same
+		if i%4 == 0 {
+			pargs := []string{"-d", "/dev/stdin", "csv", "database"}
+			pres := run.Exec(c.HR, pargs, run.ExecOpts{Dir: srv.Dir, Stdin: &text})
+			c.Eval(1)
+			c.Count("cli_csv_database_from_a_pipe", 1)
+			if pres.Out != res.Out || pres.Exit != res.Exit {
+				c.Violation("csv database|pipe-differs-from-file", fmt.Sprintf("reading the book from a pipe gives exit %d and a different export than reading the same bytes from a file (%s)", pres.Exit, clip(pres.Serr, 150)),
+					caseDoc{Files: map[string]string{"stdin": clip(text, 20000)}, Args: pargs, Expected: resDoc(res), Observed: resDoc(pres)})
+			}
 		}
 	})
 }
